@@ -11,6 +11,7 @@ EXPLANATION = ('Contracts on the real evaluate() bodies of EFITLCFSMask, Magneti
                'normalised-flux construction statement; NRA lemmas over the postconditions: orthonormal right-handed basis (normal = poloidal x '
                'toroidal), poloidal vector along the in-plane field, B.n = 0, mapped velocity components, psi_n >= 0 for either sign of '
                'psi_lcfs - psi_axis.')
+EXPLANATION += "  map2d with a 2xN array profile: the 1D interpolant is built on rows 0 and 1 of the caller's array."
 E = "cherab/tools/equilibrium/efit.pyx"
 ASSUMPTIONS = ['raysect interpolators, np.gradient, PolygonMask2D (triangulation) and Blend2D/ScalarBlend2D (value = f where the mask is 1, '
                'the outside value where it is 0) behave as documented',
